@@ -522,7 +522,7 @@ func (cx *canonCtx) c(v ssa.Value) string {
 		if name == "" {
 			return fmt.Sprintf("dyncall<%s>", posKey(x))
 		}
-		if !pureCallee(name) {
+		if !pureCallee(name) && !pureModuleFn(staticCallee(x), 0) {
 			return fmt.Sprintf("call<%s@%s>", name, posKey(x))
 		}
 		parts := []string{}
@@ -1141,3 +1141,46 @@ func resolveSpill(v ssa.Value) ssa.Value {
 
 // isRecoverBlock: the synthetic block go/ssa adds for functions with defers.
 func isRecoverBlock(b *ssa.BasicBlock) bool { return b.Parent().Recover == b }
+
+// pureModuleFn: a function of the analysed module whose body only computes
+// (no stores except to its own locals, no map updates, no calls other than
+// pure ones): two calls with canonically equal arguments yield the same value.
+var pureMemo = map[*ssa.Function]bool{}
+
+func pureModuleFn(f *ssa.Function, depth int) bool {
+	if f == nil || f.Blocks == nil || depth > 3 {
+		return false
+	}
+	if v, ok := pureMemo[f]; ok {
+		return v
+	}
+	pureMemo[f] = false
+	if f.Pkg == nil || !(f.Pkg.Pkg.Path() == modPath || strings.HasPrefix(f.Pkg.Pkg.Path(), modPath+"/")) {
+		return false
+	}
+	pure := true
+	eachInstr(f, func(in ssa.Instruction) {
+		switch x := in.(type) {
+		case *ssa.Store:
+			if _, ok := unwrapAddr(x.Addr).Base.(*ssa.Alloc); !ok {
+				pure = false
+			}
+		case *ssa.MapUpdate, *ssa.Send, *ssa.Go, *ssa.Defer, *ssa.Panic, *ssa.MakeClosure:
+			pure = false
+		case *ssa.Call:
+			n := calleeName(x)
+			if n == "" || !(pureCallee(n) || strings.HasPrefix(n, "builtin len") || pureModuleFn(staticCallee(x), depth+1)) {
+				pure = false
+			}
+		case *ssa.UnOp:
+			if x.Op == token.MUL {
+				// reading memory is allowed only from parameters' fields that registration fixed; keep it simple:
+				if _, ok := unwrapAddr(x.X).Base.(*ssa.Global); ok {
+					pure = false
+				}
+			}
+		}
+	})
+	pureMemo[f] = pure
+	return pure
+}
